@@ -88,3 +88,37 @@ def force_pure():
             raise HarnessError(f"rustext.force_pure() called after {name} was imported")
     for mod in _CRATES.values():
         sys.modules[f"dulwich.{mod}"] = None
+
+
+def load_pure(modname):
+    """Load a second, pure-Python copy of dulwich.<modname> (extensions blocked).
+
+    Returned module is named dulwich._vf_pure_<modname>; the regular module is
+    untouched.  This is how the Python twins that the import-time substitution
+    overwrites (apply_delta, bisect_find_sha, _merge_entries, _is_tree) stay
+    reachable next to the Rust ones.
+    """
+    import importlib.util
+
+    name = f"dulwich._vf_pure_{modname}"
+    if name in sys.modules:
+        return sys.modules[name]
+    import dulwich  # noqa: F401
+
+    saved = {}
+    for mod in _CRATES.values():
+        key = f"dulwich.{mod}"
+        saved[key] = sys.modules.get(key, "absent")
+        sys.modules[key] = None
+    try:
+        spec = importlib.util.spec_from_file_location(name, os.path.join(REPO, "dulwich", f"{modname}.py"))
+        m = importlib.util.module_from_spec(spec)
+        sys.modules[name] = m
+        spec.loader.exec_module(m)
+    finally:
+        for key, val in saved.items():
+            if val == "absent":
+                del sys.modules[key]
+            else:
+                sys.modules[key] = val
+    return m
